@@ -271,7 +271,9 @@ func (e *Engine) builtin(st *state, fr *frame, in ssa.CallInstruction, name stri
 		}
 		return one(st, &Val{Op: "call", Name: "append", Args: []*Val{args[0], a1}, Type: rt})
 	case "copy":
-		e.setContent(st, args[0], e.contentOf(st, args[1]))
+		if !e.overlayCopy(st, args[0], args[1]) {
+			e.setContent(st, args[0], e.contentOf(st, args[1]))
+		}
 		return one(st, &Val{Op: "call", Name: "copy", Args: args, Type: rt})
 	case "delete":
 		e.addEvent(st, fr, &Event{Kind: EvMapWrite, Mode: "delete", Recv: args[0], Args: args[1:]}, in)
@@ -532,6 +534,18 @@ func outcomeSig(pre *state, o *outcome, startID int) string {
 			var id int
 			fmt.Sscanf(k, "makeslice#%d", &id)
 			if id > startID && !escaping[id] {
+				continue
+			}
+		}
+		// a field pre-filled by bytes.Repeat and overwritten in part: a fresh slice of the callee, invisible unless returned
+		if sc := stripCT(c); sc != nil && sc.Op == "overlay" && strings.HasPrefix(k, "call") {
+			returned := false
+			for _, r := range o.ret {
+				if r != nil && r.Contains(func(x *Val) bool { return x.Op == "call" && x.Key() == k }) {
+					returned = true
+				}
+			}
+			if !returned {
 				continue
 			}
 		}
@@ -946,6 +960,36 @@ func (e *Engine) model(st *state, fr *frame, in ssa.CallInstruction, fn *ssa.Fun
 				it := map[int]types.Type{2: types.Typ[types.Uint16], 4: types.Typ[types.Uint32], 8: types.Typ[types.Uint64]}[len(lit.Args)]
 				e.addEvent(st, fr, &Event{Kind: EvWriteInt, Buf: args[0], IntType: it, Order: "zero", Src: mkConst(constant.MakeInt64(0), it), Size: mkInt(int64(len(lit.Args)))}, in)
 				return one(st, tuple(mkInt(int64(len(lit.Args))), mkNil(errT))), true
+			}
+		}
+		// a field of N pad bytes with the text laid over one end of it (copy into a pre-filled field, one Write): the
+		// same bytes as the text and the padding written one after the other
+		if ov := stripCT(src); ov != nil && ov.Op == "overlay" && len(ov.Args) == 3 {
+			if rp := stripCT(ov.Args[0]); rp != nil && rp.Op == "call" && rp.Name == "bytes.Repeat" && len(rp.Args) == 2 {
+				total, off, text := rp.Args[1], ov.Args[1], ov.Args[2]
+				tl := mkLen(text)
+				fits := condHolds(st.conds, tl, "<=", affToVal(affOf(total).Add(affOf(off), -1))) || affOf(off).Add(affOf(tl), 1).Equal(affOf(total))
+				if !affOf(total).Top && !affOf(off).Top && !affOf(tl).Top && fits {
+					padOf := func(n *Affine) *Val {
+						nv := affToVal(n)
+						return &Val{Op: "call", Name: "bytes.Repeat", Args: []*Val{rp.Args[0], nv}, Type: rp.Type}
+					}
+					if k, isC := affOf(off).IsConst(); isC && k == 0 {
+						// text first, the rest of the field stays padding
+						e.addEvent(st, fr, &Event{Kind: EvWriteBytes, Buf: args[0], Src: text, Size: tl}, in)
+						rest := affOf(total).Add(affOf(tl), -1)
+						pv := padOf(rest)
+						e.addEvent(st, fr, &Event{Kind: EvWriteBytes, Buf: args[0], Src: pv, Size: affToVal(rest)}, in)
+						return one(st, tuple(total, mkNil(errT))), true
+					}
+					if affOf(off).Add(affOf(tl), 1).Equal(affOf(total)) {
+						// padding first, the text ends the field
+						pv := padOf(affOf(off))
+						e.addEvent(st, fr, &Event{Kind: EvWriteBytes, Buf: args[0], Src: pv, Size: off}, in)
+						e.addEvent(st, fr, &Event{Kind: EvWriteBytes, Buf: args[0], Src: text, Size: tl}, in)
+						return one(st, tuple(total, mkNil(errT))), true
+					}
+				}
 			}
 		}
 		n := mkLen(src)
@@ -1815,4 +1859,35 @@ func subsumeZeroCount(outs []*outcome, base int) []*outcome {
 		}
 	}
 	return kept
+}
+
+// overlayCopy models copy(dst[lo:], src) / copy(dst, src) where dst is a slice made on this path whose bytes are known
+// to be one repeated byte (bytes.Repeat, or a made slice filled by a loop): afterwards the slice holds src laid over
+// that fill at offset lo. Returns false when the shape is not this one (the caller keeps its coarser model).
+func (e *Engine) overlayCopy(st *state, dst, src *Val) bool {
+	base, lo := dst, mkInt(0)
+	if base.Op == "slice" && len(base.Args) >= 3 && base.Args[2] == nil && (len(base.Args) < 4 || base.Args[3] == nil) {
+		if base.Args[1] != nil {
+			lo = base.Args[1]
+		}
+		base = base.Args[0]
+	}
+	for base.Op == "slice" && base.Args[1] == nil && base.Args[2] == nil {
+		base = base.Args[0]
+	}
+	var old *Val
+	if c, ok := st.content[base.Key()]; ok {
+		old = c
+	} else if base.Op == "call" && base.Name == "bytes.Repeat" {
+		old = base
+	}
+	if o := stripCT(old); o == nil || o.Op != "call" || o.Name != "bytes.Repeat" || len(o.Args) != 2 {
+		return false
+	}
+	if base.Op != "call" && base.Op != "makeslice" {
+		return false
+	}
+	sc := e.contentOf(st, src)
+	st.content[base.Key()] = &Val{Op: "overlay", Args: []*Val{old, lo, sc}, Type: base.Type}
+	return true
 }
